@@ -116,6 +116,37 @@ pub async fn build_world(root: &PathBuf) -> Result<BWorld, String> {
     Ok(BWorld { l, r, room, events })
 }
 
+/// the same world with a second room shared by both devices: one room list then asks for two locks at once
+pub async fn build_world_two_rooms(root: &PathBuf) -> Result<BWorld, String> {
+    let w = build_world(root).await?;
+    let mut p = Parameters::default();
+    p.add("adm", b64(&w.r.verifying_key)).map_err(|e| e.to_string())?;
+    p.add("u", b64(&w.l.verifying_key)).map_err(|e| e.to_string())?;
+    let q = w
+        .r
+        .db
+        .mutate_raw(
+            "mutate { sys.Room { admin:[{verif_key:$adm}] authorisations:[{ name:\"g0\" rights:[{entity:\"ns.P\" mutate_self:true mutate_all:true}] users:[{verif_key:$u}] }] } }",
+            Some(p),
+        )
+        .await
+        .map_err(|e| format!("room: {}", e))?;
+    let room2 = q.mutate_entities[0].node_to_mutate.id;
+    w.r.barrier().await;
+    let mut p = Parameters::default();
+    p.add("room", b64(&room2)).map_err(|e| e.to_string())?;
+    w.r.mutate("mutate { ns.P { room_id:$room name:\"y\" } }", Some(p)).await?;
+    w.r.barrier().await;
+    for _ in 0..2 {
+        let st = pull(&w.l, &w.r, room2, PullOpts::default()).await;
+        if !st.ok {
+            return Err(format!("preparation pull of the second room failed: {:?}", st.error));
+        }
+    }
+    let events = w.l.subscribe().await;
+    Ok(BWorld { l: w.l, r: w.r, room: w.room, events })
+}
+
 fn kind(q: &Query) -> &'static str {
     match q {
         Query::ProveIdentity(_) => "ProveIdentity",
@@ -920,6 +951,27 @@ pub fn explore(args: &Args, out: &mut Outcome) -> Value {
         });
         if let Err(e) = res {
             out.machinery_errors.push(format!("B: {}", e));
+        }
+        // two rooms and two slots: one room list makes a connection ask for (and be granted) two locks at once; the
+        // orders in which a connection ends before its tasks have taken their grants
+        let root2 = world_root("bq2");
+        let rt2 = runtime();
+        let res2: Result<(), String> = rt2.block_on(async {
+            let mut w = build_world_two_rooms(&root2).await?;
+            for seq in orders.iter().filter(|s| s.iter().any(|e| e.show().starts_with("partial_room_list") || e.show().starts_with("close_") || e.show().starts_with("error_answer"))) {
+                let mut a = run_sequence_opt(&mut w, 2, seq, false).await.map_err(|e| format!("two rooms, schedule {:?}: {}", seq.iter().map(|e| e.show()).collect::<Vec<_>>(), e))?;
+                // with two rooms, two pulls at once are legitimate (the monitor of the one-room world cannot tell the
+                // rooms apart): this batch judges the end state only - nothing stays locked, every slot is back
+                a.viols.retain(|(k, _)| k.starts_with("B/lock_left_after_connections_ended"));
+                for v in a.viols.iter_mut() {
+                    v.0 = v.0.replacen("B/lock_left_after_connections_ended", "B/two-rooms/lock_left_after_connections_ended", 1);
+                }
+                record(out, 2, &a);
+            }
+            Ok(())
+        });
+        if let Err(e) = res2 {
+            out.machinery_errors.push(format!("B (two rooms): {}", e));
         }
         out.capped.push(format!("B quick tier: fixed subset of {} orders (every order up to 6 events only in the thorough tier)", orders.len()));
         return json!({"limit": limit, "connections": 2, "rooms": 1, "orders": orders.len(), "selection": "fixed subset (clean paths, every exit path, known witnesses), each run twice", "max_events": 6});
